@@ -246,7 +246,20 @@ def r4_padding(ctx):
               f, val[0] if val else f.node, "vector validated, then padded, then used", "", "validate / pad / score order changed")
     am = astx.calls_in(f.node, "add_missing_cands")
     st = astx.stmt_of(am[0], pm) if am else None
-    ctx.check(len(am) == 1 and isinstance(st, ast.Assign) and astx.u(st.targets[0]) == f.params[0] and st.lineno < first_loop, f, am[0] if am else f.node,
+    # the completed profile - under the parameter's name or a name of its own - is the one whose ballots are scored and whose
+    # candidates start the tally
+    okp = len(am) == 1 and isinstance(st, ast.Assign) and isinstance(st.targets[0], ast.Name) and st.lineno < first_loop and astx.is_name(am[0].args[0] if am[0].args else None, f.params[0])
+    if okp and st.targets[0].id != f.params[0]:
+        X = st.targets[0].id
+        iters = [astx.u(n.iter) for n in astx.walk_own(f.node) if isinstance(n, ast.For)] + [astx.u(g.iter) for n in astx.walk_own(f.node) if isinstance(n, (ast.DictComp, ast.ListComp, ast.GeneratorExp, ast.SetComp)) for g in n.generators]
+        okp = f"{X}.ballots" in iters and f"{f.params[0]}.ballots" not in iters and f"{f.params[0]}.candidates" not in iters \
+            and len(astx.defs_of(f.node, X)) == 1
+    if not okp and am and all(len(c.args) >= 1 and astx.is_name(c.args[0], f.params[0]) for c in am):
+        # the completed profile read where it is needed (no name of its own): add_missing_cands(profile).ballots / .candidates
+        iters = [astx.u(n.iter) for n in astx.walk_own(f.node) if isinstance(n, ast.For)] + [astx.u(g.iter) for n in astx.walk_own(f.node) if isinstance(n, (ast.DictComp, ast.ListComp, ast.GeneratorExp, ast.SetComp)) for g in n.generators]
+        done = f"add_missing_cands({f.params[0]})"
+        okp = f"{done}.ballots" in iters and f"{f.params[0]}.ballots" not in iters and f"{f.params[0]}.candidates" not in iters
+    ctx.check(okp, f, am[0] if am else f.node,
               "unlisted candidates are added as a last-place tie before scoring", "", "add_missing_cands is not applied to the profile before the scoring loop")
     # "unlisted" is relative to the candidates registered with the profile - including those no ballot ranks - not to
     # the candidates that happen to have been cast (whatever shape the completion code has)
